@@ -58,6 +58,13 @@ def gen_ops(chk, thorough):
                         vv = vals if (thorough or w == "plain") else rng.sample(vals, min(8, len(vals)))
                         for v in vv:
                             ops.append(f"index {kind} {el} {ln} {w} {nty} {v}")
+    # an array longer than the positive range of an 8-bit index: negative indices must abort, they must not pass as "255 < 300"
+    for kind in ("app", "sbx"):
+        for w in ("plain", "tainted"):
+            for nty, vs in (("schar", (-128, -127, -44, -2, -1, 0, 1, 127)), ("char", (-128, -1, 0, 127)), ("uchar", (0, 200, 255)),
+                            ("short", (-32768, -300, -1, 0, 299, 300, 301, 32767)), ("int", (-1, 0, 299, 300, 65836))):
+                for v in vs:
+                    ops.append(f"index {kind} char 300 {w} {nty} {v}")
     shapes = [("long", "2x3"), ("long", "3x5"), ("char", "3x5"), ("ptr", "4x1"), ("long", "2x3x4"), ("short", "3x5"), ("short", "4x1"), ("int", "2x3"), ("uint", "4x1")]
     for kind in ("app", "sbx"):
         for el, sh in shapes:
@@ -136,7 +143,7 @@ def run(chk):
         outcomes[k] = outcomes.get(k, 0) + 1
     chk.cov["input_distribution"] = {"outcomes": outcomes, "ops": len(ops), "volatile_index_schedules": nvol}
     chk.cov["distinct_nontrivial"] = len(ops)
-    chk.cov["rule"] = ("{application, sandbox} memory x element types {char,long,pointer} x lengths 1..16 x 14 index types (plain; tainted/tainted_volatile for 4 of them) x "
+    chk.cov["rule"] = ("{application, sandbox} memory x element types {char,long,pointer} x lengths 1..16 (and 300 with 8/16/32-bit indices) x 14 index types (plain; tainted/tainted_volatile for 4 of them) x "
                        "values {-1,0,1,n-1,n,n+1,type min/max, 2^k + valid index for k=8,16,32,63,64}; shapes [2][3],[3][5],[4][1],[2][3][4]; app-side arrays sit between canaries; "
                        "an index stored in sandbox memory rewritten (to a valid, a too large or a negative value) after every machine read of the access (interposer of the C09 engine); distinct = distinct op lines; oracle: abort iff index outside [0,n), offset = flat index x stride of the memory the array lives in")
     chk.add_samples([{"op": o, "impl": a, "model": b} for o, a, b in list(zip(ops, res["impl"], res["model"]))[::max(1, len(ops) // 6)]])
